@@ -119,6 +119,9 @@ def _agreement(ctx: Ctx):
                     "materializer": lambda: PandasMaterializer(df).get_model_matrix(f, output=out, ensure_full_rank=efr, na_action=na),
                     "narwhals/pandas": lambda: NarwhalsMaterializer(df).get_model_matrix(f, output=out, ensure_full_rank=efr, na_action=na),
                 }
+                # the spec produced by a build is itself an entry point: same data, same result
+                routes["fitted-spec"] = lambda: model_matrix(f, df, output=out, ensure_full_rank=efr, na_action=na).model_spec.get_model_matrix(df)
+                routes["sugar(fitted-spec)"] = lambda: model_matrix(model_matrix(f, df, output=out, ensure_full_rank=efr, na_action=na).model_spec, df)
                 if na != "ignore" or not df.isnull().any().any():
                     routes["narwhals/arrow"] = lambda: NarwhalsMaterializer(pa.Table.from_pandas(df)).get_model_matrix(f, output=out, ensure_full_rank=efr, na_action=na)
                 for name, fn in routes.items():
